@@ -20,7 +20,12 @@ class _Cexptrk_Potential_Function(object):
     local_symbol_table = cexprtk.Symbol_Table({}, add_constants = True)
     parameter_names = self._potential_form_tuple.signature.parameter_names
     for pn in parameter_names:
-      local_symbol_table.variables[pn] = 1.0
+      try:
+        local_symbol_table.variables[pn] = 1.0
+      except (KeyError, UnicodeError, cexprtk._exceptions.NameShadowException) as e:
+        # names the expression language keeps for itself: constants (pi, epsilon, inf) and reserved words (min, if, ...)
+        raise Potential_Form_Exception("potential-form '{}' cannot have a parameter named '{}': {}".format(
+          self._potential_form_tuple.signature.label, pn, e.args[0] if e.args else e))
     return local_symbol_table
 
   def register_function(self, func):
